@@ -77,10 +77,52 @@ fn lens() -> Vec<String> {
     out
 }
 
+/// date-times at the ends of chrono's range, seen through every kind of offset: the local time the
+/// format stores may not be representable; that must be an error, not an unwind
+fn datetimes() -> Vec<String> {
+    use chrono::{DateTime, FixedOffset, TimeZone, Utc};
+    let mut out = Vec::new();
+    let ends = [DateTime::<Utc>::MIN_UTC, DateTime::<Utc>::MAX_UTC];
+    for (i, end) in ends.iter().enumerate() {
+        for delta in [0i64, 1, 3599, 3600, 86398, 86399, 86400, 200000] {
+            let utc = if i == 0 { *end + chrono::TimeDelta::seconds(delta) } else { *end - chrono::TimeDelta::seconds(delta) };
+            for off in [0i32, 1, -1, 3600, -3600, 86399, -86399] {
+                let v = utc.with_timezone(&FixedOffset::east_opt(off).unwrap());
+                let r = guarded(move || serialize_to_byte_vec(&v));
+                out.push(format!("DT fixed {} {off} {}", utc.timestamp(), match r {
+                    Err(_) => "panic".to_string(),
+                    Ok(Ok(b)) => format!("ok {}", hex(&b)),
+                    Ok(Err(e)) => format!("err {}", err_class(&e)),
+                }));
+            }
+            for tz in [chrono_tz::Tz::UTC, chrono_tz::Tz::Asia__Tokyo, chrono_tz::Tz::America__Los_Angeles] {
+                let v = tz.from_utc_datetime(&utc.naive_utc());
+                let r = guarded(move || serialize_to_byte_vec(&v));
+                out.push(format!("DT tz {} {} {}", utc.timestamp(), tz.name(), match r {
+                    Err(_) => "panic".to_string(),
+                    Ok(Ok(b)) => format!("ok {}", hex(&b)),
+                    Ok(Err(e)) => format!("err {}", err_class(&e)),
+                }));
+            }
+            let v = utc.with_timezone(&chrono::Local);
+            let r = guarded(move || serialize_to_byte_vec(&v));
+            out.push(format!("DT local {} - {}", utc.timestamp(), match r {
+                Err(_) => "panic".to_string(),
+                Ok(Ok(b)) => format!("ok {}", hex(&b)),
+                Ok(Err(e)) => format!("err {}", err_class(&e)),
+            }));
+        }
+    }
+    out
+}
+
 pub fn run(_args: &[String]) {
     quiet_panics();
     println!("{}", chars());
     for l in lens() {
+        println!("{l}");
+    }
+    for l in datetimes() {
         println!("{l}");
     }
 }
